@@ -109,10 +109,18 @@ def run_case(case, rec):
             es = m.edges.index[~m.edges[col].isna()].to_numpy()
             pstate = m.select(edges=es[-1:]).data_set(col, 2e-3, pstate)
 
+    syn_view_rows = None
+    if len(m.edges):  # a view that contains a synapse (both ends in view), as in net.cell([i, j]).data_stimulate(...)
+        e0 = m.edges.iloc[0]
+        syn_view_rows = sorted({int(e0["pre_global_comp_index"]), int(e0["post_global_comp_index"])})
+
     def ds(scale=1.0):
         d = None
         for s in data:
             d = m.select(nodes=np.asarray(s["rows"])).data_stimulate(jnp.asarray(np.asarray(s["w"])) * scale, d)
+        if syn_view_rows is not None and (data or not static):
+            Tn = len(stim[0]["w"][0])
+            d = m.select(nodes=np.asarray(syn_view_rows)).data_stimulate(jnp.full((len(syn_view_rows), Tn), 0.01) * scale, d)
         return d
 
     tm = {}
@@ -177,6 +185,19 @@ def run_case(case, rec):
         snap = check_pure(snap, "jit")
     except Refused:
         pass
+    # two different transformations in a row, each tracing a function that creates views (the documented pattern
+    # jit(simulate) followed by jit(grad(loss))): the first trace must not leave anything in the module that breaks the second
+    try:
+        f2 = lambda sc: jx.integrate(m, params=params, param_state=pstate, data_stimuli=ds(sc), **tm, **kw)
+        rec.call("modes", jax.jit(f2), 1.0, where="retrace: second jit of a view-creating function")
+        g2 = rec.call("modes", jax.jit(jax.grad(lambda sc: jnp.sum(f2(sc)[0] ** 2))), 1.0, where="retrace: jit then jit(grad)")
+        rec.check("modes", bool(np.isfinite(float(g2))), mode="retrace", what="gradient after a previous jit trace is not finite", **tag)
+        modes.append("retrace")
+    except Refused as r:
+        rec.counts["modes"]["refused"] -= 1
+        rec.violated("modes", mode="retrace", what="a second transformation after jit fails: the first trace changed the module",
+                     error=repr(r.exc)[:200], has_synapses=bool(len(m.edges)), **tag)
+    call()  # refresh with an eager call
     # checkpointing
     nsteps = A.shape[1] - 1
     layouts = [[nsteps]] + [[a, nsteps // a] for a in range(2, nsteps) if nsteps % a == 0][:1] + [[2, nsteps // 2 + 1], [2, 2, nsteps // 4 + 1]]
